@@ -27,6 +27,11 @@ import Flax.Proofs.NnxSim
 import Flax.Proofs.NnxProg
 import Flax.Proofs.NnxJit
 import Flax.Proofs.NnxCond
+import Flax.Proofs.NnxCanon
+import Flax.Proofs.NnxIter
+import Flax.Proofs.NnxErase
+import Flax.Proofs.NnxCache
+import Flax.Proofs.NnxTotal
 
 namespace Flax.C04
 open Flax.Heap Flax.Graph Flax.Nnx
@@ -87,6 +92,37 @@ theorem remat_refines_eager (f : Fn) (h : Heap) (args rets : List PVal) (h2 : He
   · next roots4 h4' hp =>
     simp at hj; obtain ⟨rfl, rfl⟩ := hj
     exact refines_of_proto he hp
+
+/-- **unconditional form: `jit` fails exactly when the body fails.**  On a closed heap (no dangling reference: always true
+of real Python objects), if the eager call succeeds then the call under `jit` succeeds and refines it; if the eager
+call raises `e` (e.g. `AttributeError`) the call under `jit` raises the same `e`.  So the model's `jit` has no
+failure mode of its own. -/
+theorem jit_total (f : Fn) (h : Heap) (args : List PVal) (hc : HeapClosed h) (ha : ∀ v ∈ args, ValClosed h v) :
+    (∀ rets h2, runFn f h args = .ok (rets, h2) →
+      ∃ outs h4 ψ, jitCall f h args = .ok (outs, h4) ∧ RefinesEager h args rets h2 outs h4 ψ) ∧
+    (∀ e, runFn f h args = .error e → jitCall f h args = .error e) := by
+  obtain ⟨t1, t2⟩ := proto_total true f h args hc ha
+  constructor
+  · intro rets h2 he
+    obtain ⟨roots4, h4, hp⟩ := t1 rets h2 he
+    obtain ⟨ψ, hr⟩ := refines_of_proto he hp
+    exact ⟨roots4.drop args.length, h4, ψ, by simp [jitCall, hp], hr⟩
+  · intro e he
+    simp [jitCall, t2 e he]
+
+/-- the same for `remat` -/
+theorem remat_total (f : Fn) (h : Heap) (args : List PVal) (hc : HeapClosed h) (ha : ∀ v ∈ args, ValClosed h v) :
+    (∀ rets h2, runFn f h args = .ok (rets, h2) →
+      ∃ outs h4 ψ, rematCall f h args = .ok (outs, h4) ∧ RefinesEager h args rets h2 outs h4 ψ) ∧
+    (∀ e, runFn f h args = .error e → rematCall f h args = .error e) := by
+  obtain ⟨t1, t2⟩ := proto_total false f h args hc ha
+  constructor
+  · intro rets h2 he
+    obtain ⟨roots4, h4, hp⟩ := t1 rets h2 he
+    obtain ⟨ψ, hr⟩ := refines_of_proto he hp
+    exact ⟨roots4.drop args.length, h4, ψ, by simp [rematCall, hp], hr⟩
+  · intro e he
+    simp [rematCall, t2 e he]
 
 /-- consequences spelled out: after the call, every attribute path from (arguments, results) resolves alike under
 the transform and eagerly, and two paths reach ONE object under the transform iff they do eagerly (aliasing,
@@ -183,6 +219,104 @@ theorem switch_rejects_structure_change (fs : List Fn) (index : Int) (h : Heap) 
     (hne : o'.1 ≠ o.1) : switchCall fs index h args = .error .structureMismatch :=
   switchCall_mismatch hs1 htr hmem hne
 
+/-! ## loops -/
+
+/-- **`nnx.fori_loop(lower, lower + n, body, init)` equals the unrolled Python loop**
+`for i in range(lower, lower + n): val = body(i, val)`, for every trip count (induction on `n`), every heap whose
+attribute dictionaries have distinct keys, every carried tuple (graph nodes, Variables, arrays; aliasing allowed)
+and every body the transform accepts (the structure check demands that the carry keeps its graphdef and its
+reference structure).  The address map is the identity: the caller's own objects hold the final values, and the
+final carry consists of the caller's objects. -/
+theorem loops_refine_unrolled (f : Fn) (lower : Int) (n : Nat) (h : Heap) (vals : List PVal) (nh : AttrsNodup h)
+    (roots : List PVal) (h4 : Heap) (hc : foriCall f lower n h vals = .ok (roots, h4))
+    (valsE : List PVal) (hE : Heap) (he : foriEager f n lower h vals = .ok (valsE, hE)) :
+    ∃ χ, LoopRefines h valsE hE roots h4 χ :=
+  fori_refines f lower n h vals nh roots h4 hc valsE hE he
+
+/-- **`nnx.while_loop(cond, body, init)` equals `while cond(val): val = body(val)`** (induction on the number of
+iterations), for a predicate that only reads its argument -/
+theorem while_refines_unrolled (c f : Fn) (hro : c.readOnly = true) (fuel : Nat) (h : Heap) (vals : List PVal)
+    (nh : AttrsNodup h) (roots : List PVal) (h4 : Heap) (hc : whileCall c f fuel h vals = .ok (roots, h4))
+    (valsE : List PVal) (hE : Heap) (he : whileEager c f fuel h vals = .ok (valsE, hE)) :
+    ∃ χ, LoopRefines h valsE hE roots h4 χ :=
+  while_refines c f hro fuel h vals nh roots h4 hc valsE hE he
+
+/-- the pure value a traced body returns is the canonical form (`flatten`) of what the eager body leaves behind:
+same graphdef, same leaves, same `ref_index` -/
+theorem traced_body_is_flatten_of_eager (f : Fn) (pre : List PVal) (hpre : ∀ v ∈ pre, ∃ d, v = PVal.array d)
+    (h : Heap) (vals : List PVal) (gds : List GDef) (fss : List FlatState) (idx1 : RefIndex)
+    (hf : FlatRoots h vals [] gds fss idx1) (nh : AttrsNodup h) (rets : List PVal) (h2 : Heap)
+    (he : runFn f h (pre ++ vals) = .ok (rets, h2)) (lss' : List (List Leaf))
+    (hb : bodyPure f pre gds (fss.map (convLeaves false)) = .ok lss') :
+    ∃ fss', FlatRoots h2 rets [] gds fss' idx1 ∧ lss' = fss'.map (convLeaves false) := by
+  obtain ⟨fss', h1, h2', _, _⟩ := body_step hpre hf nh he hb
+  exact ⟨fss', h1, h2'⟩
+
+/-! ## the trace cache -/
+
+/-- **a cache hit is sound.**  Whatever calls came before (any heaps, any arguments: the caller may edit anything
+between calls), a call of the same `nnx.jit`-wrapped function through the trace cache -- hit or miss -- returns
+exactly what a fresh, uncached `jit` call returns, and so refines the eager call (`jit_refines_eager`).  The reason
+(`pureRun_shape`): the output graphdefs of the traced function, `outer_index` stamps included, are a function of
+the static key alone; payloads cannot influence them. -/
+theorem cache_hit_sound (f : Fn) (calls : List (Heap × List PVal)) :
+    callsFrom f { entries := [], traces := 0 } calls = calls.map (fun p => jitCall f p.1 p.2) :=
+  callsFrom_sound f calls _ (cacheOK_empty f 0)
+
+/-- one call, from any cache state reachable by calls of `f` -/
+theorem cache_call_sound (f : Fn) (c : JitCache) (hc : CacheOK f c) (h : Heap) (args : List PVal) :
+    (jitCached f c h args).1 = jitCall f h args ∧ CacheOK f (jitCached f c h args).2 :=
+  jitCached_sound f c h args hc
+
+/-- the static key contains the full input graphdef: two argument tuples have the same key iff `flatten` gives them
+the same graphdefs (classes, attribute names, static attribute values, Variable types and metadata, sharing
+structure).  A structural edit between calls therefore changes the key, and the call is a miss. -/
+theorem cache_key_is_graphdef (gds gds' : List GDef) :
+    gds.map (stampWith (fun _ => Option.none)) = gds'.map (stampWith (fun _ => Option.none)) ↔ gds = gds' :=
+  ⟨stamp_inj_defs, fun h => by rw [h]⟩
+
+/-- the Python body runs again exactly when the key is new -/
+theorem cache_traces_on_miss_only (f : Fn) (c : JitCache) (h : Heap) (args : List PVal) (gds : List GDef)
+    (lss : List (List Leaf)) (idx1 : RefIndex) (hs1 : step1 true h args = .ok (gds, lss, idx1)) :
+    (jitCached f c h args).2.traces =
+      if (c.entries.find? (fun t => decide (t.key = gds.map (stampWith (fun _ => Option.none))))).isSome then c.traces
+      else c.traces + 1 :=
+  jitCached_traces f c h args gds lss idx1 hs1
+
+/-! ## cached_partial -/
+
+/-- **`cached_partial` detects structure changes and otherwise behaves as `jit`**: an accepted call returns what the
+`jit` call returns; a call whose final graphdefs of the cached arguments differ from
+`graphdef.with_same_outer_index()` is rejected with `cacheMutated` -/
+theorem cached_partial_detects (f : Fn) (h : Heap) (args : List PVal) :
+    (∀ r, cachedPartialCall f h args = .ok r → jitCall f h args = .ok r) ∧
+    (∀ gds lss idx1 gdsO lssO, step1 true h args = .ok (gds, lss, idx1) → pureRun true true f [] gds lss = .ok (gdsO, lssO) →
+      gdsO.take args.length ≠ gds.map (stampWith (fun i => some i)) → cachedPartialCall f h args = .error .cacheMutated) := by
+  constructor
+  · intro r hr
+    unfold cachedPartialCall at hr
+    unfold jitCall protoCall
+    cases hs1 : step1 true h args with
+    | error e => rw [hs1] at hr; cases hr
+    | ok p =>
+      obtain ⟨gds, lss, idx1⟩ := p
+      rw [hs1] at hr
+      simp only at hr ⊢
+      cases hpr : pureRun true true f [] gds lss with
+      | error e => rw [hpr] at hr; cases hr
+      | ok q =>
+        obtain ⟨gdsO, lssO⟩ := q
+        rw [hpr] at hr
+        simp only at hr ⊢
+        split at hr
+        · exact hr
+        · cases hr
+  · intro gds lss idx1 gdsO lssO hs1 hpr hne
+    unfold cachedPartialCall
+    rw [hs1]
+    simp only [hpr]
+    rw [if_neg hne]
+
 /-! ## non-vacuity -/
 
 /-- `m = A(); m.w = Param(3); m.c = B(); m.c.w = m.w; m.c.p = m; m.s = 5` -/
@@ -234,5 +368,60 @@ def exS : Fn := { body := [.litStatic "i:1", .setAttr 0 (.str "z") 1, .data (.co
 
 example : (match condCall exT exS true exHeap [.ref 0] with | .error e => some e | .ok _ => Option.none) =
     some Err.structureMismatch := by decide
+
+/-- the hypotheses of `jit_total`: the example heap is closed -/
+example : HeapClosed exHeap ∧ ∀ v ∈ [PVal.ref 0, PVal.ref 1], ValClosed exHeap v := by
+  constructor
+  · intro a cls attrs hg b hb
+    match a, hg with
+    | 0, hg => simp [exHeap] at hg; obtain ⟨_, rfl⟩ := hg; simp [deepRefsKV, deepRefs] at hb; rcases hb with rfl | rfl <;> decide
+    | 1, hg => simp [exHeap] at hg; obtain ⟨_, rfl⟩ := hg; simp [deepRefsKV, deepRefs] at hb; rcases hb with rfl | rfl <;> decide
+    | 2, hg => simp [exHeap] at hg
+    | n + 3, hg => simp [exHeap] at hg
+  · intro v hv b hb
+    simp at hv
+    rcases hv with rfl | rfl <;> (simp [deepRefs] at hb; subst hb; decide)
+
+/-- an erroring body: `getattr(m, 'missing')` raises `AttributeError` eagerly and under `jit` -/
+def exBad : Fn := { body := [.getAttr 0 (.str "missing")], ret := [] }
+
+example : (match runFn exBad exHeap [.ref 0] with | .error e => some e | .ok _ => Option.none) = some Err.attrError ∧
+    (match jitCall exBad exHeap [.ref 0] with | .error e => some e | .ok _ => Option.none) = some Err.attrError := by decide
+
+/-- the hypothesis `AttrsNodup` of the loop theorems: `vars(obj)` has distinct keys -/
+example : AttrsNodup exHeap := attrsNodup_of_check (by decide)
+
+/-- `def body(i, (m, n)): w = m.w; x = w.value; w.value = x + i; return m, n` over the aliased carry `(m, m.c)` -/
+def exBody : Fn :=
+  { body := [.getAttr 1 (.str "w"), .readVar 3, .setVar 3 (.add (.reg 4) (.reg 0))], ret := [1, 2] }
+
+example : (foriCall exBody 2 3 exHeap [.ref 0, .ref 1]).toOption.map (fun r => (r.1, r.2[2]?)) =
+    some ([.ref 0, .ref 1], some (.var ["Param", "Variable"] 12 [])) := by decide
+
+example : (foriEager exBody 3 2 exHeap [.ref 0, .ref 1]).toOption.map (fun r => (r.1, r.2[2]?)) =
+    some ([.ref 0, .ref 1], some (.var ["Param", "Variable"] 12 [])) := by decide
+
+/-- `while n < 3: m.w.value += n; n += 1` -/
+def exCond : Fn := { body := [.data (.lt (.reg 1) (.const 3))], ret := [2] }
+def exWBody : Fn :=
+  { body := [.getAttr 0 (.str "w"), .readVar 2, .setVar 2 (.add (.reg 3) (.reg 1)), .data (.add (.reg 1) (.const 1))],
+    ret := [0, 4] }
+
+example : exCond.readOnly = true := by decide
+
+example : (whileCall exCond exWBody 10 exHeap [.ref 0, .array 0]).toOption.map (fun r => (r.1, r.2[2]?)) =
+    some ([.ref 0, .array 3], some (.var ["Param", "Variable"] 6 [])) := by decide
+
+/-- a history with a hit: the second call finds the key of the first (value-only body, same structure) -/
+example : ((callsFrom exT { entries := [], traces := 0 } [(exHeap, [.ref 0]), (exHeap, [.ref 0])]).map
+    (fun r => r.toOption.map (fun x => x.1))) = [some [.array 3], some [.array 3]] := by decide
+
+example : CacheOK exT { entries := [], traces := 0 } := cacheOK_empty exT 0
+
+/-- `cached_partial`: a value-only function is accepted, a structure change is detected -/
+example : (cachedPartialCall exT exHeap [.ref 0]).toOption.map (fun r => r.1) = some [.array 3] := by decide
+
+example : (match cachedPartialCall exS exHeap [.ref 0] with | .error e => some e | .ok _ => Option.none) =
+    some Err.cacheMutated := by decide
 
 end Flax.C04
